@@ -45,7 +45,7 @@ ASSUME_BLOCK = [
     "(deneb: inclusion later than one epoch) and payload extra_data of 0 / 31 / 32 bytes; in those configurations the Gwei constants differ too (MAX_EFFECTIVE_BALANCE 40 ETH, EJECTION_BALANCE "
     "33 ETH, the electra preset's MIN_ACTIVATION_BALANCE 24 ETH that deneb code could reach by mistake). `blk mode=payload` lines run the fork's "
     "ProcessExecutionPayload ALONE against process_execution_payload (ProcessBlock repeats the blob-commitment bound in CheckLimits, so a defect in the "
-    "payload step's own bound is invisible through the block entry); c03 also applies a second block of the same slot to the post-block state. The mainnet "
+    "payload step's own bound is invisible through the block entry); c03 also applies a second block of the same slot to the post-block state. Payload blocks also run (block entry and payload step alone) on a pre-state whose latest_execution_payload_header is still the DEFAULT one (a chain that reached the fork without ever processing a payload), with a payload parent hash that is zero (valid on every fork) or non-zero (bellatrix: the merge transition block, valid; capella/deneb: refused — the parent hash is compared always, c03). The mainnet "
     "constants themselves run in the thorough tier only",
 ]
 
